@@ -7,8 +7,8 @@ from hypothesis import strategies as st
 
 from . import ir
 
-WIDTHS_QUICK = (1, 2, 3, 4, 7, 8, 9, 15, 16, 17, 31, 32, 33, 63, 64)
-WIDTHS_THOROUGH = WIDTHS_QUICK + (5, 6, 12, 24, 48, 65, 128, 256)
+WIDTHS_QUICK = (1, 2, 3, 4, 7, 8, 9, 15, 16, 17, 24, 31, 32, 33, 63, 64, 128)
+WIDTHS_THOROUGH = WIDTHS_QUICK + (5, 6, 12, 40, 48, 65, 72, 256)
 SMALL_WIDTHS = (1, 2, 3, 4)
 
 
